@@ -111,6 +111,19 @@ def x_resolved(self, st, r, name):
     raise U(self)("resolved %r" % (r,))
 
 
+def x_const(self, st, key, v):
+    """A module- or class-level constant.  With `shared_consts` a mutable one (list/dict) is ONE object per state,
+    as in Python: whoever gets it through the name gets the same object (a shallow copy shares its members)."""
+    if getattr(self, "shared_consts", False) and isinstance(v, (list, dict)):
+        gk = "@const:" + key
+        r = st.ghost.get(gk)
+        if r is None or r.oid not in st.heap:
+            r = self.x_lift(st, v)
+            st.ghost[gk] = r
+        return r
+    return self.x_lift(st, v)
+
+
 def x_lift(self, st, v):
     """Python constant (from the folder) -> abstract value."""
     if isinstance(v, list):
@@ -722,7 +735,7 @@ def get_attr(self, st, base, attr, node, default=KeyError):
             lc = o.cls.lookup_const(attr)
             if lc is not None:
                 try:
-                    return [(st, "val", self.x_lift(st, self.ix.fold(lc[1], lc[0].module)))]
+                    return [(st, "val", self.x_const(st, "%s.%s" % (lc[0].fullname, attr), self.ix.fold(lc[1], lc[0].module)))]
                 except NotConst:
                     rv = _abscall.fold_regex_const(self, lc[1], lc[0].module)
                     if rv is not KeyError:
@@ -813,7 +826,7 @@ def get_attr(self, st, base, attr, node, default=KeyError):
             lc = ci.lookup_const(attr)
             if lc is not None:
                 try:
-                    return [(st, "val", self.x_lift(st, self.ix.fold(lc[1], lc[0].module)))]
+                    return [(st, "val", self.x_const(st, "%s.%s" % (lc[0].fullname, attr), self.ix.fold(lc[1], lc[0].module)))]
                 except NotConst:
                     rv = _abscall.fold_regex_const(self, lc[1], lc[0].module)
                     if rv is not KeyError:
